@@ -30,6 +30,25 @@ def derives_from_arg(t, param):
     return prov.contains(t, lambda x: x == ("param", param))
 
 
+def mapped_list(g, rn, v, rec_name):
+    """`v` denotes [rec(item, ...) for item in obj] spelled as list(<genexp>) or as an append loop"""
+    if isinstance(v, ast.Call) and dump(v.func) == "list" and len(v.args) == 1 and isinstance(v.args[0], (ast.GeneratorExp, ast.ListComp)):
+        return v.args[0]
+    if isinstance(v, ast.Name):
+        defs = prov.rd_of(g).get(rn.id, {}).get(v.id, ())
+        dn = [g.nodes[i] for i in defs]
+        if len(dn) == 1 and dn[0].kind == "stmt" and isinstance(dn[0].ast, ast.Assign) and dump(dn[0].ast.value) == "[]":
+            apps = [(n, c) for n in g.live_nodes() for c in node_calls(n) if dump(c.func) == v.id + ".append"]
+            if len(apps) == 1:
+                n, c = apps[0]
+                loops = [l for l in g.live_nodes() if l.kind == "for_body" and dump(l.ast.iter) == "obj" and
+                         any(sub is n.ast for st_ in l.ast.body for sub in ast.walk(st_))]
+                if len(loops) == 1 and isinstance(loops[0].ast.target, ast.Name) and len(loops[0].ast.body) == 1 and isinstance(c.args[0], ast.Call) \
+                        and dump(c.args[0].func) == rec_name and c.args[0].args and dump(c.args[0].args[0]) == loops[0].ast.target.id:
+                    return "loop"
+    return None
+
+
 def check(ck):
     prog = ck.prog
     fdump = prog.func("jsonclass", "dump")
@@ -79,7 +98,7 @@ def check(ck):
                 ck.bad("C15.1", "%s: %s" % (q.fn(fi), desc),
                        "the object given to %s is modified (%s on %s)" % (fi.name, desc, prov.show(t)[:60]), q.loc(fi, n))
     ck.ok("C15.1", "jsonclass.dump / load / _find_fields: mutation scan", "%d mutation(s) of argument-derived objects examined" % n1, "")
-    ck.floor("C15.1", 2)
+    ck.floor("C15.1", 1)
 
     # ---- C15.2 / C15.4 output constructors -------------------------------------------------------------
     for fi, rec_name in ((fdump, "dump"), (fload, "load")):
@@ -100,7 +119,12 @@ def check(ck):
                 ck.require(t == ("param", "obj"), "C15.4", "%s: primitive branch `%s`" % (q.fn(fi), q.stmt_text(rn)),
                            "returns the argument itself", "a primitive is returned as %s instead of itself: its exact type/value is not preserved"
                            % prov.show(t), q.loc(fi, rn))
-            elif isinstance(v, ast.ListComp):
+            elif mapped_list(g, rn, v, rec_name) == "loop":
+                kind = "list"
+                ck.ok("C15.2", "%s: list built by an append loop over obj" % q.fn(fi), "each item passed through %s" % rec_name, q.loc(fi, rn))
+            elif isinstance(v, ast.ListComp) or mapped_list(g, rn, v, rec_name) is not None:
+                if not isinstance(v, ast.ListComp):
+                    v = mapped_list(g, rn, v, rec_name)
                 gen = v.generators[0]
                 okk = len(v.generators) == 1 and not gen.ifs and dump(gen.iter) == "obj" and isinstance(v.elt, ast.Call) and \
                     dump(v.elt.func) == rec_name and v.elt.args and dump(v.elt.args[0]) == dump(gen.target)
@@ -115,7 +139,9 @@ def check(ck):
                 kind = "dict"
                 ck.require(okk, "C15.2", "%s: `%s`" % (q.fn(fi), dump(v)[:60]), "{key: %s(value, ...) for key, value in obj.items()}" % rec_name,
                            "the dict branch returns `%s`: keys are not kept or values not passed through %s" % (dump(v)[:70], rec_name), q.loc(fi, rn))
-            elif fi is fdump and t[0] == "call" and t[1][0] == "item" and prov.show(t[1][1]).endswith("serialize_handlers"):
+            elif fi is fdump and t[0] == "call" and ((t[1][0] == "item" and prov.show(t[1][1]).endswith("serialize_handlers")) or
+                                                     (t[1][0] == "call" and t[1][1][0] == "attr" and t[1][1][2] == "get" and
+                                                      prov.show(t[1][1][1]).endswith("serialize_handlers"))):
                 kind = "handler"
                 ck.ok("C15.2", "%s: `%s`" % (q.fn(fi), q.stmt_text(rn)[:50]), "registered handler's result", q.loc(fi, rn))
             elif fi is fdump and isinstance(v, ast.Name) and all(a[0] == "other" and a[1].startswith("{'__jsonclass__'") for a in prov.alts(t)):
